@@ -91,6 +91,11 @@ def r1_inverse_pair(ctx):
             y, x = ev.ev(node.args[0]), ev.ev(node.args[1])
             if G.is_rat(y) and G.is_rat(x):
                 return atan2(y, x)
+        if name in ("math.acos", "np.arccos") and len(node.args) == 1:
+            v = ev.ev(node.args[0])
+            # acos(cos u) = u for the polar angle 0 <= u <= 180 deg
+            if G.is_rat(v) and G.same(v, F.cos(x1)):
+                return x1
         return NotImplemented
 
     for ctype, label in ((1, "rectangular"), (2, "cylindrical"), (3, "spherical")):
@@ -424,6 +429,51 @@ def _family(v):
     return None
 
 
+def _mask_of(lp):
+    """the selecting mask of a loop over `positions[mask]`, else None"""
+    it = lp["iter"]
+    p = G.fn_parts(it) if G.is_rat(it) else None
+    if p is None or p[0] != "idx" or len(p[1]) != 2:
+        return None
+    m = p[1][1]
+    return m if G.is_rat(m) and (G.fn_atoms(m, "cmp:Eq") or (G.fn_parts(m) or ("",))[0] == "cmp:Eq") else None
+
+
+def _mask_code(mask):
+    """mask == (source == k) -> ('eq', k, source); its negation -> ('negated', k, source); else (None, None, None)"""
+    def eq(v):
+        q = G.fn_parts(v)
+        if q is None or q[0] != "cmp:Eq" or len(q[1]) != 2:
+            return None
+        ks = [G.int_of(a) for a in q[1]]
+        if (ks[0] is None) == (ks[1] is None):
+            return None
+        return (ks[0] if ks[0] is not None else ks[1]), (q[1][1] if ks[0] is not None else q[1][0])
+    if mask is None:
+        return None, None, None
+    e = eq(mask)
+    if e is not None:
+        return "eq", e[0], e[1]
+    q = G.fn_parts(mask)
+    if q is not None and q[0] in ("not", "invert") and eq(q[1][0]) is not None:
+        e = eq(q[1][0])
+        return "negated", e[0], e[1]
+    return None, None, None
+
+
+def _family_in(M):
+    """the 3-vector whose elements the entries of a frame matrix are made of (when no atan2 call names it)"""
+    fams = {}
+    for aid, d in G.atoms_of(M):
+        f = _family(G.atom_rat(aid))
+        if f is not None:
+            key = G.vkey(f(0))
+            fams.setdefault(key, [0, f])[0] += 1
+    if not fams:
+        return None
+    return max(fams.values(), key=lambda x: x[0])[1]
+
+
 def _loop_rows(ev, lp):
     """rows of one array stored during one generic iteration -> (array id, base row value, {offset: final value}, [row symbol names])"""
     log = ev.sh.rowlog[lp["rows"][0]:lp["rows"][1]]
@@ -498,7 +548,8 @@ def r2_local_frames(ctx):
     def X(b):
         return F.fn("idx", iloc, F.fn("tuple", b, tail))
     # ---- the rectangular step
-    rect = [lp for lp in gen.sh.loops if lp["depth"] == 0 and lp["outer"] is None and not _atan2_calls(gen, lp) and _loop_rows(gen, lp) is not None]
+    top = [lp for lp in gen.sh.loops if lp["depth"] == 0 and lp["outer"] is None and _loop_rows(gen, lp) is not None]
+    rect = [lp for lp in top if _mask_of(lp) is None and not _atan2_calls(gen, lp)]
     rbcall = [c for c in gen.calls if c[0] == "rbgeom"]
     ok, detail = len(rect) == 1 and len(rbcall) == 1, None
     if ok:
@@ -511,33 +562,38 @@ def r2_local_frames(ctx):
     ctx.check(ok, "rbgeom_uset: the basic rigid-body rows of every grid are taken to its output system with the transpose of that grid's own 3x3 "
                   "(table rows 3..5, columns x, y, z), translations and rotations alike", rect[0]["node"] if rect else fn, detail)
     # ---- the cylindrical / spherical fix-ups
-    loops = [lp for lp in gen.sh.loops if lp["depth"] == 0 and lp["outer"] is None and _atan2_calls(gen, lp)]
+    loops = [lp for lp in top if lp not in rect]
     want_type = gen.expr('uset.loc[(slice(None), 2), "y"]')
     rho, phi, zz, Rr, th = F.sym("rho"), F.sym("phi"), F.sym("zeta"), F.sym("Rr"), F.sym("theta")
     o, i1 = F.const(0), F.const(1)
     frames = {
         2: ("cylindrical", {0: rho * F.cos(phi), 1: rho * F.sin(phi), 2: zz},
             ((F.cos(phi), F.sin(phi), o), (-F.sin(phi), F.cos(phi), o), (o, o, i1)), "[e_r, e_theta, e_z]"),
-        3: ("spherical", {0: Rr * F.sin(th) * F.cos(phi), 1: Rr * F.sin(th) * F.sin(phi), 2: Rr * F.cos(th)},
+        3: ("spherical", {0: rho * F.cos(phi), 1: rho * F.sin(phi), 2: zz},
             ((F.sin(th) * F.cos(phi), F.sin(th) * F.sin(phi), F.cos(th)), (F.cos(th) * F.cos(phi), F.cos(th) * F.sin(phi), -F.sin(th)),
              (-F.sin(phi), F.cos(phi), o)), "[e_R, e_theta, e_phi]"),
     }
-    rule = G.atan2_rule([phi, th], [rho, Rr, Rr * F.sin(th)])
+    rule = G.atan2_rule([phi], [rho])                  # in-plane:  (x, y) = rho (cos phi, sin phi),  rho > 0 off the polar axis
+    rule2 = G.atan2_rule([th], [Rr])                   # meridian:  (rho, z) = R (sin theta, cos theta),  R > 0
+    stage2 = {G.atom_id(rho): Rr * F.sin(th), G.atom_id(zz): Rr * F.cos(th)}
     found = {}
     info = []
     for lp in loops:
-        eqs = [args for args in G.fn_atoms(lp["iter"], "cmp:Eq") if any(G.int_of(a) is not None for a in args if G.is_rat(a))] \
-            if G.is_rat(lp["iter"]) else []
-        if len(eqs) != 1:
+        mask = _mask_of(lp)
+        kind, code, src = _mask_code(mask)
+        if kind == "negated":
+            ctx.fail("rbgeom_uset: a local-frame fix-up is applied to the grids of one output-system type only", lp["node"],
+                     {"selection": _show(mask), "consequence": f"grids of every type other than {code} are rotated into a frame that is not theirs"})
+            continue
+        if kind != "eq":
             ctx.error("rbgeom_uset: selection of the grids of a local-frame fix-up", lp["node"], _show(lp["iter"]))
             continue
-        code = next(G.int_of(a) for a in eqs[0] if G.int_of(a) is not None)
-        src = next(a for a in eqs[0] if G.int_of(a) is None)
         calls = _atan2_calls(gen, lp)
-        fam = _family(calls[0][1][0]) or _family(calls[0][1][1])
         mat = _loop_matrix(gen, lp)
+        fam = (_family(calls[0][1][0]) or _family(calls[0][1][1])) if calls else (_family_in(mat[1]) if mat is not None else None)
         if code not in frames or fam is None or mat is None:
-            ctx.error("rbgeom_uset: local-frame fix-up", lp["node"], {"type code": code, "first atan2": _show(calls[0][1]), "rows": mat is not None})
+            ctx.error("rbgeom_uset: local-frame fix-up", lp["node"], {"type code": code, "first atan2": _show(calls[0][1]) if calls else None,
+                                                                      "rows": mat is not None})
             continue
         found[code] = G.same(src, want_type)
         label, par, frame, fname = frames[code]
@@ -560,6 +616,8 @@ def r2_local_frames(ctx):
         # frame in the generic regime (off the polar axis)
         leaf = {lids[j]: par[j] for j in range(3)}
         Mp = G.rebuild(M, leaf, rule)
+        if code == 3:
+            Mp = G.rebuild(Mp, stage2, rule2)
         tt = tuple(r[:3] for r in Mp[:3])
         rr = tuple(r[3:] for r in Mp[3:])
         cross = all(x.is_zero() for r in Mp[:3] for x in r[3:]) and all(x.is_zero() for r in Mp[3:] for x in r[:3])
@@ -570,7 +628,10 @@ def r2_local_frames(ctx):
         ok = cross and G.same(rr, frame)
         ctx.check(ok, f"rbgeom_uset ({label}): the rotational rows are rotated by the same frame as the translational rows", lp["node"],
                   None if ok else _show(rr, 900))
-    ok = found.get(2) is True and found.get(3) is True and len(loops) == 2
+    if set(found) != {2, 3}:
+        ctx.error("rbgeom_uset: one local-frame fix-up per curvilinear type (2 cylindrical, 3 spherical)", fn, {"types bound": sorted(found)})
+        return
+    ok = found.get(2) is True and found.get(3) is True
     ctx.check(ok, "rbgeom_uset: cylindrical grids are those whose output-system type (table row 2, column y) is 2, spherical 3 - the same codes that "
                   "_get_loc_a_basic and getcoordinates dispatch on", fn, None if ok else {str(k): v for k, v in found.items()})
     # ---- the polar-axis short cuts, decided at the points of a witness table
@@ -579,6 +640,8 @@ def r2_local_frames(ctx):
     for lp, code, lids, M, calls in info:
         for n, c in enumerate(calls):
             verdict[(code, n, id(c[3]))] = [names.get((code, n), f"angle {n + 1} of type {code}"), c[3], []]
+        if not calls:
+            verdict[(code, 0, id(lp["node"]))] = [f"{frames[code][0]} frame", lp["node"], []]
     und = []
     allids = sorted({x for _, _, lids, _, _ in info for x in lids})
     for w in _OFF_AXIS:
@@ -720,8 +783,8 @@ def r4_rbe3_order(ctx):
 
 
 RULES = [
-    ("C14-R1", r1_inverse_pair, 10),
-    ("C14-R2", r2_local_frames, 8),
+    ("C14-R1", r1_inverse_pair, 12),
+    ("C14-R2", r2_local_frames, 9),
     ("C14-R3", r3_rbgeom, 4),
     ("C14-R4", r4_rbe3_order, 3),
 ]
